@@ -451,7 +451,37 @@ def _bp_test(f):
     return None
 
 
+def rule_record_owners(ck):
+    """a record may disappear only where its breakpoints are removed from the debugger"""
+    prog = ck.prog
+    ck.rule("wmc.record_owners", "the four record collections of the session (breakpoints_by_source, function_breakpoints, instruction_breakpoints, data_breakpoints) are emptied, replaced or have entries removed only inside their own set*Breakpoints handler (where mpt.replace ties every dropped record to Debugger::remove_breakpoint): a record dropped anywhere else leaves its breakpoint armed without options and out of reach of the next replace")
+    fields = {".breakpoints_by_source": "handle_set_breakpoints", ".function_breakpoints": "handle_set_function_breakpoints",
+              ".instruction_breakpoints": "handle_set_instruction_breakpoints", ".data_breakpoints": "handle_set_data_breakpoints"}
+    sites = []
+    for p_, f in prog.fns.items():
+        if not f.file.startswith("src/dap/"):
+            continue
+        for c in f.calls():
+            if c.args and re.search(r"::(clear|take|replace|swap|drain|remove|remove_entry|retain|truncate|pop|split_off|extract_if)$", c.name):
+                a = expr_str(expr_of(f, c.args[0], depth=6), 5)
+                for k in fields:
+                    if a.endswith(k) or (k + ")") in a or a.endswith(k + "*"):
+                        sites.append((f, k, c.name.rsplit("::", 1)[-1], f.loc(c.bb)))
+        for i, j, pl, rv, sp in f.assigns():
+            if pl and pl[-1] in fields and len(pl) <= 3:
+                sites.append((f, pl[-1], "assign", f.loc(i)))
+    ck.floor("wmc.record_owners", "mutations of the record collections", len(sites), 7)
+    seen = {}
+    for f, k, how, loc in sites:
+        ck.saw(f)
+        owner = short(owner_fn(f.path))
+        n = seen.get((owner, k, how), 0)
+        seen[(owner, k, how)] = n + 1
+        ck.ob("wmc.record_owners", f"{owner}/{k.strip('.')}/{how}#{n}/inside-its-handler", owner_fn(f.path).endswith("::" + fields[k]), f"{how} of {k} in {owner}", loc, what=f"records of {k.strip('.')} are dropped outside {fields[k]}: their breakpoints stay armed in the debugger, lose condition / hitCondition / logMessage, and the next replace cannot remove them")
+
+
 def run(ck):
+    rule_record_owners(ck)
     rule_all_addresses(ck)
     rule_rekey(ck)
     rule_replace(ck)
